@@ -36,6 +36,8 @@ add_leg('C17', 'C17w', 3000, 60, 200000, 900)
 add_leg('C13', 'C13e', 3000, 60, 200000, 900)
 add_leg('C16', 'C16r', 4000, 60, 300000, 1200)
 add_leg('C16', 'D_seq_shift', 1, 10, 1, 10)
+add_leg('C16', 'C16w', 48, 120, 4000, 1800)
+add_leg('C05', 'C16w', 32, 120, 2000, 1200)
 add_leg('C16', 'D_serial_arithmetic', 64, 60, 64, 120)
 add_leg('C19', 'D_heartbeat', 1, 10, 1, 10)
 add_leg('C19', 'D_dup_sack', 1, 10, 1, 10)
@@ -133,7 +135,7 @@ MANIFEST_TEXT.update({
 MANIFEST_TEXT.update({
     'C16': dict(design_ref='DESIGN.md §5 C16',
                 technique='deterministic simulation: shifted twin runs of one seed (initial TSNs just below 2^32 and SSN / MID bases just below their wrap vs. the same run far from any wrap) must give identical canonicalised observable histories; exhaustive enumeration of the 16-bit comparison helpers',
-                text='For each seed the same workload, fault sequence and schedule is executed twice: once with both initial TSNs (hence request sequence numbers) within one tracking window of 2^32 and every stream\'s SSN / MID space started just below its wrap (set white-box at both ends), once far from any wrap; API results and emitted packets - with every TSN, SSN, MID and request number rewritten as an offset from its base - must agree event by event and at the same virtual times. A second leg does the same over stream close / re-open cycles (request numbers and reset cut-off TSNs cross the wrap). The comparison helpers are enumerated over all 2^32 16-bit pairs and a structured sample of 32-bit pairs against an independent RFC 1982 reference, including shift invariance. One defect found and fixed (F10). Evidence, not proof.',
+                text='For each seed the same workload, fault sequence and schedule is executed twice: once with both initial TSNs (hence request sequence numbers) within one tracking window of 2^32 and every stream\'s SSN / MID space started just below its wrap (set white-box at both ends), once far from any wrap; API results and emitted packets - with every TSN, SSN, MID and request number rewritten as an offset from its base - must agree event by event and at the same virtual times. A second leg does the same over stream close / re-open cycles (request numbers and reset cut-off TSNs cross the wrap). The comparison helpers are enumerated over all 2^32 16-bit pairs and a structured sample of 32-bit pairs against an independent RFC 1982 reference, including shift invariance. A third leg (C16w) keeps up to a full tracking window of one-byte messages in flight across 2^32 above an early loss, with seeded depth, offset and receive-buffer size (bitmap length). Two defects found and fixed (F10, F11). Evidence, not proof.',
                 note=SIM_NOTE + ' Twin runs use the deterministic run-to-completion schedule and a shift-invariant base order for 32-bit map keys, so that both runs consume their decision tapes identically. The helper enumeration is not a simulation (pure function); it rides along in the same check.'),
 })
 
